@@ -196,6 +196,14 @@ class Builder:
             M = self.array({"n": r["n"], "m": r.get("m", r["n"]), "dtype": r.get("dtype", "f8"),
                             "seed": r.get("seed", 0), "sym": r.get("sym", "gen")})
             return ops.LinearOperator(M.dtype, M.shape, matmat=_Matmat(M))
+        if k == "usercls":
+            # a user-defined LinearOperator subclass; fresh=True re-runs the class definition (factory function called
+            # again, notebook cell re-executed): a NEW class object with the same qualified name
+            cache = self.ctx.__dict__.setdefault("_user_classes", {})
+            if r.get("fresh", False) or "Scaled" not in cache:
+                cache["Scaled"] = _make_user_class()
+            d = self.array({"shape": [r["n"]], "dtype": r.get("dtype", "f8"), "seed": r.get("seed", 0), "kind": "pos"})
+            return cache["Scaled"](d, r.get("c", 2.0))
         if k == "probe":
             return self.ctx.make_probe(B(r["inner"]), r.get("pid", 0))
         if k == "sum":
@@ -255,6 +263,22 @@ class Builder:
         if k == "I_like":
             return ops.I_like(B(r["of"]))
         raise ValueError("unknown recipe kind %r" % k)
+
+
+def _make_user_class():
+    from cola.ops import LinearOperator
+
+    class Scaled(LinearOperator):
+        """what the documentation calls MyLinearOperator: one array parameter, one Python scalar"""
+        def __init__(self, d, c=2.0):
+            self.d = d
+            self.c = c
+            super().__init__(d.dtype, (len(d), len(d)))
+
+        def _matmat(self, X):
+            return self.c * self.d[:, None] * X
+
+    return Scaled
 
 
 def _lay(r):
